@@ -123,6 +123,8 @@ def run_runner(root, seed, n, outp):
         a['impl_error'] = 'implicit poloidal step: ' + eb
         return a, ''
     a['results'].update(b['results'])
+    for k, v in b.get('modified', {}).items():
+        a.setdefault('modified', {})[k] = sorted(set(a.get('modified', {}).get(k, [])) | set(v))
     for k, v in b['skipped'].items():
         a['skipped'][k] = a['skipped'].get(k, 0) + v
     return a, ''
@@ -429,6 +431,14 @@ def run():
                     chk.violation('build:module-not-compiled', 'after the documented build these modules are still imported from source: %r' % notso, {'kind': 'impl', 'modules': notso})
                 if notpy:
                     raise core.BrokenCheck('/repo contains compiled kernels %r: the interpreted reference would not be interpreted' % notpy)
+                # array arguments written by the kernels: the same ones in both runs
+                mc, mi = comp.get('modified', {}), intr.get('modified', {})
+                for fn_ in sorted(set(mc) | set(mi)):
+                    chk.count(('written-arguments', fn_, sd), stratum='kernel:written-arguments', sample={'kernel': fn_, 'written': mi.get(fn_, [])})
+                    if sorted(mc.get(fn_, [])) != sorted(mi.get(fn_, [])):
+                        chk.violation('kernels:%s:written-arguments' % fn_.split('.')[-1],
+                                      'kernel %s (seed %d): the compiled kernel writes to array arguments %r, the interpreted source to %r (positions in the call)'
+                                      % (fn_, sd, mc.get(fn_, []), mi.get(fn_, [])), {'kind': 'impl', 'kernel': fn_, 'seed': sd, 'compiled': mc.get(fn_, []), 'interpreted': mi.get(fn_, [])})
                 for name in sorted(intr['results']):
                     programs += 1
                     ra = intr['results'][name]
